@@ -252,6 +252,44 @@ func c09Observe(c *Ctx, w c09WS, run int, r *Rng, tag string) ([]string, error) 
 		sort.Strings(ss)
 		obs = append(obs, "workspaceSymbol|"+q+"|"+strings.Join(ss, ","))
 	}
+	// a fixed little history of file events, then the published view again: one file is announced as changed without
+	// its bytes changing (so the server holds its text), then one file really changes and is announced together with
+	// the untouched one in a single batch. What the client holds afterwards must not depend on which worker finishes last.
+	var luaRels []string
+	for _, rel := range rels {
+		if strings.HasSuffix(rel, ".lua") {
+			luaRels = append(luaRels, rel)
+		}
+	}
+	if len(luaRels) >= 2 {
+		a, b := luaRels[0], luaRels[len(luaRels)-1]
+		ev := func(rs ...string) {
+			var chs []interface{}
+			for _, rel := range rs {
+				chs = append(chs, map[string]interface{}{"uri": ws.URI(rel), "type": 2})
+			}
+			srv.Notify("workspace/didChangeWatchedFiles", map[string]interface{}{"changes": chs})
+		}
+		for _, rel := range luaRels {
+			srv.Notify("textDocument/didClose", map[string]interface{}{"textDocument": map[string]interface{}{"uri": ws.URI(rel)}})
+		}
+		ev(b)
+		if err := srv.Fence(); err != nil {
+			return nil, err
+		}
+		for round := 0; round < 3; round++ {
+			ws.Write(a, w.Files[a]+fmt.Sprintf("\nGC09Extra%d = %d\nprint(c09Undefined%d)\n", round, round, round))
+			ev(a, b)
+			if err := srv.Fence(); err != nil {
+				return nil, err
+			}
+			for u, ds := range srv.View() {
+				for _, d := range ds {
+					obs = append(obs, fmt.Sprintf("post-events-%d|diag|%s|%s", round, ws.Rel(u), strings.ReplaceAll(d.Key(), ws.Root, "$ROOT")))
+				}
+			}
+		}
+	}
 	sort.Strings(obs)
 	return obs, nil
 }
@@ -351,5 +389,5 @@ func runC09(c *Ctx) {
 		"arity/level, generated duplicate globals whose definitions tie or differ independently in form, line, column, scope level and function level, members added to a global table from several files, "+
 		"same-basename modules, duplicate annotation classes) is analysed by R independent server processes with GOMAXPROCS cycling 1/2/16 and "+
 		"shuffled file creation order; the sorted diagnostics and probe answers (definition, hover, references, completion, documentSymbol, workspace/symbol) "+
-		"must be identical. distinct_nontrivial = workspaces whose R observations were all equal", 10)
+		"must be identical, and so must the published diagnostics after a fixed history of watched-file events (a touch, then three batches announcing one really changed and one untouched file). distinct_nontrivial = workspaces whose R observations were all equal", 10)
 }
